@@ -108,3 +108,16 @@ func (p *PipeEnd) Close() error {
 
 // String describes the end.
 func (p *PipeEnd) String() string { return fmt.Sprintf("pipe(%s)", p.Name) }
+
+// Pending is the number of frames waiting to be received at this end.
+func (p *PipeEnd) Pending() int { return len(p.q) }
+
+// TryRecv pops a pending frame without yielding to the scheduler (nil if none).
+func (p *PipeEnd) TryRecv() []byte {
+	if len(p.q) == 0 {
+		return nil
+	}
+	f := p.q[0]
+	p.q = p.q[1:]
+	return f
+}
